@@ -41,6 +41,7 @@ const (
 	VRem                   // bit Index of the remainder symbol Parent (division identity)
 	VOld                   // previous contents of an output location
 	VOpaque                // result of an operation outside the domain
+	VWrap                  // wrap mode: carry / borrow / wrap-around count of one instruction (Why = position)
 )
 
 // VarInfo describes one variable.
@@ -52,6 +53,7 @@ type VarInfo struct {
 	Index  int
 	Parent int    // VRem: index into World.rems
 	Why    string // VOpaque: origin
+	Def    *Form  // VWrap of bits.Add64/Sub64: x+y+c resp. x-y-b (the result word is Def -/+ 2^64*this)
 }
 
 // remInfo is one application of the division identity X = 2^K*Q + R.
@@ -84,6 +86,13 @@ type World struct {
 	Fails    []Failure
 	failSeen map[string]bool
 	Stats    map[string]int
+
+	// WrapMode: a result that may leave its machine type is not a failure but
+	// gets an explicit wrap term (result = form - 2^w*k with k a fresh integer
+	// symbol); math/bits.Add64/Sub64 are modelled with carry/borrow symbols and
+	// conversions int64<->uint64 reinterpret two's complement layouts.  The
+	// obligations are then congruences modulo 2^N (lattice.go).
+	WrapMode bool
 
 	// partial 0/1 assignment of variables applied when operands are fetched
 	// (NonAdjacentForm tabulation)
@@ -137,16 +146,27 @@ func (w *World) newVar(vi VarInfo) int {
 }
 
 // Var returns the description of a variable.
-func (w *World) Var(v int) *VarInfo { return &w.vars[v] }
+func (w *World) Var(v int) *VarInfo {
+	vi := &w.vars[v]
+	if vi.Name == "" { // names of input variables are rendered on demand
+		switch vi.Kind {
+		case VBit:
+			vi.Name = fmt.Sprintf("bit %d of %s", vi.Index, vi.Group)
+		case VSym:
+			vi.Name = fmt.Sprintf("%s[%d]", vi.Group, vi.Index)
+		}
+	}
+	return vi
+}
 
 // BitVar creates the 0/1 input bit index of group.
 func (w *World) BitVar(group string, index int) int {
-	return w.newVar(VarInfo{Kind: VBit, Name: fmt.Sprintf("bit %d of %s", index, group), Lo: bigZero, Hi: bigOne, Group: group, Index: index})
+	return w.newVar(VarInfo{Kind: VBit, Lo: bigZero, Hi: bigOne, Group: group, Index: index})
 }
 
 // SymVar creates a bounded input symbol.
 func (w *World) SymVar(group string, index int, lo, hi *big.Int) int {
-	return w.newVar(VarInfo{Kind: VSym, Name: fmt.Sprintf("%s[%d]", group, index), Lo: lo, Hi: hi, Group: group, Index: index})
+	return w.newVar(VarInfo{Kind: VSym, Lo: lo, Hi: hi, Group: group, Index: index})
 }
 
 // OldVar creates a symbol for the previous contents of an output location.
@@ -371,6 +391,132 @@ func (w *World) layoutOf(x *Int) (*layout, bool) {
 // fromLayout builds the word of a layout.
 func (w *World) fromLayout(l *layout) *Int {
 	return &Int{R: l.itv(), layState: 1, lay: *l}
+}
+
+// twosOf returns the bit pattern of a word of the given width whose form is a
+// two's complement layout: distinct powers of two over 0/1 variables where the
+// top position carries the weight -2^(bits-1).
+func (w *World) twosOf(x *Int, bits uint) (*layout, bool) {
+	f := x.F()
+	if !f.c.IsInt() || len(f.ts) > 64 || bits == 0 || bits > 64 {
+		return nil, false
+	}
+	var l layout
+	c := new(big.Int).Set(f.c.Num())
+	if c.Sign() < 0 {
+		c.Add(c, pow2(bits-1))
+		if c.Sign() < 0 {
+			return nil, false
+		}
+		l[bits-1] = layOne
+	}
+	if c.BitLen() > int(bits-1) {
+		return nil, false
+	}
+	for i := 0; i < c.BitLen(); i++ {
+		if c.Bit(i) == 1 {
+			l[i] = layOne
+		}
+	}
+	for _, t := range f.ts {
+		if !t.c.IsInt() {
+			return nil, false
+		}
+		vi := &w.vars[t.v]
+		if vi.Lo.Sign() != 0 || vi.Hi.Cmp(bigOne) != 0 {
+			return nil, false
+		}
+		k, ok := log2Exact(new(big.Int).Abs(t.c.Num()))
+		if !ok || k >= bits || l[k] != 0 || (t.c.Sign() < 0) != (k == bits-1) {
+			return nil, false
+		}
+		l[k] = int32(t.v + 1)
+	}
+	return &l, true
+}
+
+// fromTwos builds the signed word of the given width with that bit pattern.
+func (w *World) fromTwos(l *layout, bits uint) *Int {
+	var pos layout
+	copy(pos[:], l[:])
+	top := pos[bits-1]
+	pos[bits-1] = 0
+	f := pos.form()
+	r := pos.itv()
+	lo, hi := r.Lo, r.Hi
+	switch {
+	case top == layOne:
+		f = f.Sub(intForm(pow2(bits - 1)))
+		lo, hi = new(big.Int).Sub(lo, pow2(bits-1)), new(big.Int).Sub(hi, pow2(bits-1))
+	case top != 0:
+		f = f.Sub(varForm(int(top - 1)).Shl(bits - 1))
+		lo = new(big.Int).Sub(lo, pow2(bits-1))
+	}
+	return &Int{f: f, R: Itv{lo, hi}}
+}
+
+// wrapInto brings a value into the machine type k by an explicit wrap term
+// (wrap mode): result = x - 2^bits*n with n a fresh integer symbol whose range
+// follows from the range of x.
+func (w *World) wrapInto(in ssa.Instruction, k ikind, x *Int, what string) *Int {
+	t := k.rng()
+	if x.R.Leq(t) {
+		return x
+	}
+	// n in [ceil((lo - t.Hi)/2^bits), floor((hi - t.Lo)/2^bits)]
+	m := pow2(k.bits)
+	nlo := new(big.Int).Sub(x.R.Lo, t.Hi)
+	nlo.Add(nlo, new(big.Int).Sub(m, bigOne))
+	nlo.Div(nlo, m) // Euclidean: floor for a positive divisor, so this is the ceiling of (lo - t.Hi)/m
+	nhi := new(big.Int).Sub(x.R.Hi, t.Lo)
+	nhi.Div(nhi, m)
+	pos, _ := w.where(in)
+	w.Stats["wrap terms (wrap mode)"]++
+	v := w.newVar(VarInfo{Kind: VWrap, Name: fmt.Sprintf("wrap#%d (%s at %s)", len(w.vars), what, pos), Lo: nlo, Hi: nhi, Why: pos})
+	return &Int{f: x.F().Sub(varForm(v).Shl(k.bits)), R: t}
+}
+
+// addCarry models math/bits.Add64 (sub = false) and Sub64 (sub = true) in
+// wrap mode: (x + y + c) = sum + 2^64*carry resp. (x - y - b) = diff - 2^64*borrow
+// with a fresh 0/1 symbol for the carry / borrow.
+func (w *World) addCarry(in ssa.Instruction, x, y, c *Int, sub bool) (res, carry *Int) {
+	var f *Form
+	var ar Itv
+	if sub {
+		f = x.F().Sub(y.F()).Sub(c.F())
+		ar = x.R.Sub(y.R).Sub(c.R)
+	} else {
+		f = x.F().Add(y.F()).Add(c.F())
+		ar = x.R.Add(y.R).Add(c.R)
+	}
+	full := w.mkInt(f, &ar)
+	m := pow2(64)
+	// carry = floor(full / 2^64) for Add64, borrow = -floor(full / 2^64) for Sub64
+	qlo, qhi := floorDiv2(full.R.Lo, 64), floorDiv2(full.R.Hi, 64)
+	word := Itv{bigZero, pow2m1(64)}
+	if qlo.Cmp(qhi) == 0 {
+		q := qlo
+		res = w.mkInt(full.F().Sub(intForm(new(big.Int).Mul(q, m))), &word)
+		if sub {
+			q = new(big.Int).Neg(q)
+		}
+		return res, w.concInt(q)
+	}
+	pos, _ := w.where(in)
+	what := "carry"
+	if sub {
+		what = "borrow"
+		qlo, qhi = new(big.Int).Neg(qhi), new(big.Int).Neg(qlo)
+	}
+	w.Stats["carry/borrow symbols (wrap mode)"]++
+	v := w.newVar(VarInfo{Kind: VWrap, Name: fmt.Sprintf("%s#%d (at %s)", what, len(w.vars), pos), Lo: qlo, Hi: qhi, Why: pos, Def: full.F()})
+	carry = w.symInt(v)
+	if sub {
+		res = &Int{f: full.F().Add(varForm(v).Shl(64)), R: word}
+	} else {
+		res = &Int{f: full.F().Sub(varForm(v).Shl(64)), R: word}
+	}
+	return res, carry
 }
 
 // ---------------------------------------------------------------------------
